@@ -68,13 +68,14 @@ def lean_env():
     return _LEAN_ENV
 
 
-def lake_build(targets):
+def lake_build(targets, have_lock=False):
     """build the given modules (and their imports). Returns (ok, log, failed_modules)"""
-    lk = _lock()
+    lk = None if have_lock else _lock()
     try:
         p = subprocess.run(['lake', 'build'] + list(targets), cwd=LEAN, capture_output=True, text=True, timeout=3000)
     finally:
-        lk.close()
+        if lk is not None:
+            lk.close()
     log = p.stdout + p.stderr
     failed = re.findall(r'^- (Pyc[\w.]*)', log, re.M)
     return p.returncode == 0, log, failed
@@ -232,6 +233,12 @@ def finish(ctx, level_obligations, checker_cmd):
             fresh.append(v)
     for sig, v in sorted(known_hit.items()):
         print('KNOWN-FINDING: property=%s %s — %s' % (ctx.pid, sig, open_sigs[sig].get('what', v['what'])))
+    # a broken proof obligation / correspondence is reported on its own only when the search found no failing input
+    if any(v['found_input'] for v in fresh):
+        sub = [v for v in fresh if not v['found_input']]
+        fresh = [v for v in fresh if v['found_input']]
+        for v in sub[:3]:
+            print('note: also no longer checks (explained by the failing input below): %s' % v['what'][:200])
     rdir = os.path.join(VERIF, 'replays')
     os.makedirs(rdir, exist_ok=True)
     seen = set()
